@@ -73,7 +73,7 @@ func (g *srcGen) atom() string {
 	case 9:
 		return "3r"
 	case 10:
-		return []string{"1px", "2.5em", "10ms", "3s"}[g.r.Intn(4)]
+		return []string{"5ns", "2.5h", "10ms", "3s"}[g.r.Intn(4)]
 	case 11:
 		return "'c'"
 	case 12:
@@ -146,7 +146,7 @@ func (g *srcGen) expr(depth int) string {
 	case 24:
 		return g.call(depth)
 	case 25:
-		return "tpl`> " + g.expr(depth-1) + ", " + g.expr(depth-1) + "\ntext\n`"
+		return "huh`> " + g.expr(depth-1) + ", " + g.expr(depth-1) + "\ntext\n`"
 	case 26:
 		return "func(" + g.id() + " int)" + s() + "int {\n\treturn " + g.expr(depth-1) + "\n}"
 	case 27:
